@@ -67,6 +67,61 @@ Proof.
 Qed.
 
 (* ------------------------------------------------------------------ *)
+(* character boundaries: str::is_char_boundary and the downward search of commit 06ea4f6 *)
+
+Lemma is_char_boundary_0 l : is_char_boundary l 0 = true.
+Proof. reflexivity. Qed.
+
+(* Rust: is_char_boundary(len) = true, is_char_boundary(i) = false for i > len *)
+Lemma is_char_boundary_len (l : list N) : is_char_boundary l (length l) = true.
+Proof.
+  unfold is_char_boundary. destruct (length l) as [|n] eqn:E; [reflexivity|]. rewrite <- E.
+  destruct (nth_error l (length l)) as [b|] eqn:En.
+  - assert (H : nth_error l (length l) <> None) by congruence. apply nth_error_Some in H. lia.
+  - apply Nat.eqb_refl.
+Qed.
+
+Lemma is_char_boundary_beyond (l : list N) k : (length l < k)%nat -> is_char_boundary l k = false.
+Proof.
+  intros H. unfold is_char_boundary. destruct k as [|k']; [lia|].
+  destruct (nth_error l (S k')) as [b|] eqn:En.
+  - assert (H' : nth_error l (S k') <> None) by congruence. apply nth_error_Some in H'. lia.
+  - apply Nat.eqb_neq. lia.
+Qed.
+
+(* the loop ends on a boundary at or below its start; it never has to decrement 0 *)
+Lemma floor_char_boundary_spec (l : list N) k :
+  (floor_char_boundary l k <= k)%nat /\ is_char_boundary l (floor_char_boundary l k) = true.
+Proof.
+  induction k as [|k IH]; cbn [floor_char_boundary].
+  - rewrite is_char_boundary_0. split; [lia|reflexivity].
+  - destruct (is_char_boundary l (S k)) eqn:E; [split; [lia|exact E]|].
+    destruct IH as [IH1 IH2]. split; [lia|exact IH2].
+Qed.
+
+Lemma floor_char_boundary_id (l : list N) k :
+  is_char_boundary l k = true -> floor_char_boundary l k = k.
+Proof. intros H. destruct k; cbn [floor_char_boundary]; rewrite H; reflexivity. Qed.
+
+(* every `offset -= 1` of the loop yields a non-negative value *)
+Lemma floor_subs_nonneg (l : list N) k : Forall (fun z => (0 <= z)%Z) (floor_subs l k).
+Proof.
+  induction k as [|k IH]; cbn [floor_subs].
+  - rewrite is_char_boundary_0. constructor.
+  - destruct (is_char_boundary l (S k)); [constructor|]. constructor; [cbv beta; lia|exact IH].
+Qed.
+
+(* nothing between the result and the start is a boundary: the result is the GREATEST boundary
+   <= k (Rust's str::floor_char_boundary) *)
+Lemma floor_char_boundary_greatest (l : list N) k j :
+  (floor_char_boundary l k < j <= k)%nat -> is_char_boundary l j = false.
+Proof.
+  induction k as [|k IH]; cbn [floor_char_boundary]; [rewrite is_char_boundary_0; lia|].
+  destruct (is_char_boundary l (S k)) eqn:E; [lia|]. intros H.
+  destruct (Nat.eq_dec j (S k)) as [->|Hne]; [exact E|]. apply IH. lia.
+Qed.
+
+(* ------------------------------------------------------------------ *)
 (* ws_len versus the whitespace reconstruct really emits *)
 
 (* the safety net of `reconstruct` fires in front of this token *)
@@ -316,15 +371,17 @@ Qed.
 (* ------------------------------------------------------------------ *)
 (* PContent *)
 
-(* A cursor inside token idx stays at the same offset inside the same token (as long as the
-   offset still exists in the final content). *)
+(* A cursor inside token idx stays at the same offset inside the same token, as long as the
+   offset still exists in the final content and is a character boundary of it (both are true when
+   the token's text is unchanged and the cursor was on a character boundary of the input). *)
 Theorem relocate_content_same_offset rs toks idx p off :
   nth_error toks idx = Some p ->
-  off <= blen (t_content (fst p)) -> blen (t_content (fst p)) < 4294967296 ->
+  off <= blen (t_content (fst p)) ->
+  is_char_boundary (t_content (fst p)) (N.to_nat off) = true ->
   relocate rs toks idx (PContent off) = Some (Z.of_N (offset_for_token rs toks idx + off)).
 Proof.
-  intros Hn Ho Hl. rewrite (relocate_in_range _ _ _ _ _ Hn). unfold relocate_at.
-  rewrite u32_small by exact Hl. rewrite N.min_l by exact Ho. f_equal. lia.
+  intros Hn Ho Hb. rewrite (relocate_in_range _ _ _ _ _ Hn). unfold relocate_at.
+  rewrite N.min_l by exact Ho. rewrite floor_char_boundary_id by exact Hb. f_equal. lia.
 Qed.
 
 Example relocate_content_same_offset_ex :
@@ -332,21 +389,25 @@ Example relocate_content_same_offset_ex :
   let p := (mkToken [] [98;97;114] TT_Identifier, mkFmt false 1 1 0 0) in
   let toks := [(mkToken [] [97] TT_Identifier, mkFmt false 0 0 0 0); p] in
   nth_error toks 1 = Some p /\ 2 <= blen (t_content (fst p)) /\
-  blen (t_content (fst p)) < 4294967296 /\
+  is_char_boundary (t_content (fst p)) (N.to_nat 2) = true /\
   relocate rs toks 1 (PContent 2) = Some 6%Z /\ recon rs false toks = [97;10;32;32;98;97;114].
 Proof. vm_compute. repeat split; congruence. Qed.
 
-(* the general PContent value: never beyond the end of the token *)
+(* the general PContent value: the greatest character boundary of the new content that is
+   <= min(offset, len) *)
 Lemma relocate_content_value rs toks idx p off :
   nth_error toks idx = Some p ->
-  exists d, relocate rs toks idx (PContent off) = Some (Z.of_N (offset_for_token rs toks idx + d))
-            /\ d = N.min off (u32 (blen (t_content (fst p)))) /\ d <= off
-            /\ d <= blen (t_content (fst p)).
+  exists k, relocate rs toks idx (PContent off)
+            = Some (Z.of_N (offset_for_token rs toks idx) + Z.of_nat k)%Z
+            /\ k = floor_char_boundary (t_content (fst p)) (N.to_nat (N.min off (blen (t_content (fst p)))))
+            /\ (k <= N.to_nat off)%nat /\ (k <= length (t_content (fst p)))%nat
+            /\ is_char_boundary (t_content (fst p)) k = true.
 Proof.
-  intros Hn. exists (N.min off (u32 (blen (t_content (fst p))))).
-  rewrite (relocate_in_range _ _ _ _ _ Hn). unfold relocate_at.
-  pose proof (u32_le (blen (t_content (fst p)))).
-  repeat split; try lia. f_equal. lia.
+  intros Hn. eexists. rewrite (relocate_in_range _ _ _ _ _ Hn). unfold relocate_at.
+  split; [reflexivity|]. split; [reflexivity|].
+  destruct (floor_char_boundary_spec (t_content (fst p)) (N.to_nat (N.min off (blen (t_content (fst p))))))
+    as [H1 H2].
+  unfold blen in *. repeat split; try lia. exact H2.
 Qed.
 
 (* ------------------------------------------------------------------ *)
@@ -358,7 +419,28 @@ Theorem multiline_no_underflow rs toks idx p rc nla :
   (Z.of_N (offset_for_token rs toks idx)
    <= relocate_at rs toks idx p (PMultiline rc nla)
    <= Z.of_N (offset_for_token rs toks idx + blen (t_content (fst p))))%Z.
-Proof. unfold relocate_at. lia. Qed.
+Proof.
+  unfold relocate_at.
+  match goal with |- context [floor_char_boundary ?l ?k] =>
+    destruct (floor_char_boundary_spec l k) as [H1 _] end.
+  unfold blen in *. lia.
+Qed.
+
+(* NEW (F9 repaired): a Content or MultilineContent cursor lands on a character boundary of the
+   token's NEW content — for any content whatsoever, no UTF-8 validity needed *)
+Theorem relocate_char_boundary rs toks idx p pos :
+  nth_error toks idx = Some p ->
+  match pos with PWhitespace _ _ => False | _ => True end ->
+  exists k, relocate rs toks idx pos = Some (Z.of_N (offset_for_token rs toks idx) + Z.of_nat k)%Z
+            /\ (k <= length (t_content (fst p)))%nat
+            /\ is_char_boundary (t_content (fst p)) k = true.
+Proof.
+  intros Hn Hpos. rewrite (relocate_in_range _ _ _ _ _ Hn).
+  destruct pos as [off|rc nla|col nla]; [| |contradiction]; unfold relocate_at;
+    match goal with |- context [floor_char_boundary ?l ?k] =>
+      destruct (floor_char_boundary_spec l k) as [H1 H2]; exists (floor_char_boundary l k) end;
+    (split; [reflexivity|]); (split; [unfold blen in *; lia|exact H2]).
+Qed.
 
 (* ------------------------------------------------------------------ *)
 (* PWhitespace *)
@@ -367,18 +449,54 @@ Proof. unfold relocate_at. lia. Qed.
    new_token_offset + kept_len - ws_len(token).
    The subtraction cannot go negative, because offset_for_token(idx) already contains
    ws_len(token idx) as its last summand — for ignored and non-ignored tokens alike. *)
+(* the boundary search of commit c3b0c3f: back only grows, and never beyond the length of the
+   verbatim whitespace; `leading_ws.len() - back` is never negative *)
+Lemma nonbreaking_le_ws_ignored rs p :
+  f_ignored (snd p) = true -> fst (nonbreaking_ws_len rs p) <= blen (t_ws (fst p)).
+Proof.
+  intros Hi. pose proof (nonbreaking_le_ws_len rs p) as H. destruct p as [tok f]. cbn [snd fst] in *.
+  unfold ws_len in H. rewrite Hi in H. exact H.
+Qed.
+
+Lemma ws_back_adjust_bounds rs p back0 :
+  (0 <= back0 <= Z.of_N (fst (nonbreaking_ws_len rs p)))%Z ->
+  (back0 <= ws_back_adjust p back0 <= Z.of_N (ws_len rs p))%Z.
+Proof.
+  intros Hb. pose proof (nonbreaking_le_ws_len rs p) as Hnb. unfold ws_back_adjust.
+  destruct (f_ignored (snd p)) eqn:Hi; [|lia].
+  pose proof (nonbreaking_le_ws_ignored rs p Hi) as Hle.
+  assert (Hws : ws_len rs p = blen (t_ws (fst p))).
+  { destruct p as [tok f]. cbn [snd fst] in *. unfold ws_len. rewrite Hi. reflexivity. }
+  match goal with |- context [floor_char_boundary ?l ?k] =>
+    destruct (floor_char_boundary_spec l k) as [H1 _] end.
+  unfold blen in *. lia.
+Qed.
+
+Lemma ws_back_subs_nonneg rs p back0 :
+  (0 <= back0 <= Z.of_N (fst (nonbreaking_ws_len rs p)))%Z ->
+  Forall (fun z => (0 <= z)%Z) (ws_back_subs p back0).
+Proof.
+  intros Hb. unfold ws_back_subs. destruct (f_ignored (snd p)) eqn:Hi; [|constructor].
+  pose proof (nonbreaking_le_ws_ignored rs p Hi) as Hle.
+  constructor; [cbv beta; lia|apply floor_subs_nonneg].
+Qed.
+
 Theorem whitespace_no_underflow rs toks idx p col nla :
   nth_error toks idx = Some p ->
   Forall (fun z => (0 <= z)%Z) (relocate_subs rs toks idx p (PWhitespace col nla)).
 Proof.
   intros Hn. pose proof (offset_ge_ws_len rs toks idx p Hn) as Hge.
-  pose proof (nonbreaking_le_ws_len rs p) as Hnb.
   unfold relocate_subs. destruct (0 <? N.min nla (f_nl (snd p))).
   - constructor; [cbv beta; lia|constructor].
-  - destruct (nonbreaking_ws_len rs p) as [wl bf]. cbn [fst] in Hnb.
+  - pose proof (ws_back_adjust_bounds rs p) as Hadj. pose proof (ws_back_subs_nonneg rs p) as Hsub.
+    destruct (nonbreaking_ws_len rs p) as [wl bf]. cbn [fst] in *.
     set (cws := if bf then 0 else col_for_token_end_post_fmt rs toks idx).
     pose proof (clamp_bounds col cws (cws + wl) ltac:(lia)) as Hc.
-    constructor; [cbv beta; lia|]. constructor; [cbv beta; lia|constructor].
+    set (d := (Z.of_N (cws + wl) - Z.of_N (clamp col cws (cws + wl)))%Z) in *.
+    assert (Hd : (0 <= d <= Z.of_N wl)%Z) by (unfold d; lia).
+    specialize (Hadj d Hd). specialize (Hsub d Hd).
+    constructor; [cbv beta; lia|]. apply Forall_app. split; [exact Hsub|].
+    constructor; [cbv beta; lia|constructor].
 Qed.
 
 (* every usize subtraction of the match arm is non-negative, for every TokPos *)
@@ -387,15 +505,15 @@ Theorem relocate_no_underflow rs toks idx p pos :
   Forall (fun z => (0 <= z)%Z) (relocate_subs rs toks idx p pos).
 Proof.
   intros Hn. destruct pos as [off|rc nla|col nla].
-  - constructor.
-  - unfold relocate_subs. constructor; [cbv beta; lia|constructor].
+  - apply floor_subs_nonneg.
+  - unfold relocate_subs. constructor; [cbv beta; lia|apply floor_subs_nonneg].
   - apply whitespace_no_underflow, Hn.
 Qed.
 
-(* in the out-of-range branch tok_pos has been replaced by Content: no subtraction at all *)
+(* in the out-of-range branch tok_pos has been replaced by Content: only the boundary search *)
 Lemma relocate_no_underflow_out_of_range rs toks idx p n :
-  relocate_subs rs toks idx p (PContent n) = [].
-Proof. reflexivity. Qed.
+  Forall (fun z => (0 <= z)%Z) (relocate_subs rs toks idx p (PContent n)).
+Proof. apply floor_subs_nonneg. Qed.
 
 (* Branch 1 stays at or before the token start iff this holds.  Since commit 014530d it holds
    for EVERY token (ws_back_ok_all); before, it failed for ignored tokens whose line breaks are
@@ -450,6 +568,37 @@ Proof.
   specialize (Hall pos Hin). cbv beta in Hall. lia.
 Qed.
 
+Lemma In_firstn {A} (a : A) k : forall l, In a (firstn k l) -> In a l.
+Proof.
+  induction k as [|k IHk]; intros [|x l]; cbn [firstn]; try contradiction.
+  intros [->|H]; [left; reflexivity|right; apply IHk, H].
+Qed.
+
+(* every reported position really holds an LF *)
+Lemma lf_positions_nth (l : list N) : forall i,
+  Forall (fun pos => i <= pos /\ nth_error l (N.to_nat (pos - i)) = Some 10) (lf_positions_from i l).
+Proof.
+  induction l as [|b t IH]; intros i; [constructor|]. cbn [lf_positions_from].
+  assert (IH' : Forall (fun pos => i <= pos /\ nth_error (b :: t) (N.to_nat (pos - i)) = Some 10)
+                       (lf_positions_from (i + 1) t)).
+  { eapply Forall_impl; [|exact (IH (i + 1))]. cbv beta. intros a [Ha1 Ha2]. split; [lia|].
+    replace (N.to_nat (a - i)) with (S (N.to_nat (a - (i + 1)))) by lia. exact Ha2. }
+  destruct (b =? 10) eqn:E; [|exact IH']. apply N.eqb_eq in E. subst b.
+  constructor; [|exact IH']. split; [lia|]. rewrite N.sub_diag. reflexivity.
+Qed.
+
+(* kept_len of an ignored token is 0 or the offset just past an LF of its whitespace *)
+Lemma kept_len_ignored_cases (ws : list N) k :
+  kept_len_ignored ws k = 0 \/
+  exists pos, kept_len_ignored ws k = pos + 1 /\ nth_error ws (N.to_nat pos) = Some 10.
+Proof.
+  unfold kept_len_ignored. destruct (last_opt (firstn k (lf_positions_from 0 ws))) as [pos|] eqn:E; [|left; reflexivity].
+  right. exists pos. split; [reflexivity|].
+  apply last_opt_in, In_firstn in E.
+  pose proof (lf_positions_nth ws 0) as Hall. rewrite Forall_forall in Hall.
+  destruct (Hall pos E) as [_ H]. rewrite N.sub_0_r in H. exact H.
+Qed.
+
 Lemma ws_back_ok_ignored rs p nla : f_ignored (snd p) = true -> ws_back_ok rs p nla.
 Proof.
   destruct p as [tok f]. cbn [snd]. intros Hi. unfold ws_back_ok, kept_len, ws_len. cbn [snd fst].
@@ -501,32 +650,55 @@ Proof.
   rewrite Hlb, Hi. lia.
 Qed.
 
-(* Branch 2 (same line as the token): between the start of the token's non-breaking whitespace
-   and the token *)
+(* Branch 2 (same line as the token): inside the whitespace in front of the token; for a
+   formatted token inside its non-breaking part *)
 Lemma whitespace_same_line_bounds rs toks idx p col nla :
   N.min nla (f_nl (snd p)) = 0 ->
-  (Z.of_N (offset_for_token rs toks idx) - Z.of_N (fst (nonbreaking_ws_len rs p))
+  (Z.of_N (offset_for_token rs toks idx) - Z.of_N (ws_len rs p)
    <= relocate_at rs toks idx p (PWhitespace col nla)
    <= Z.of_N (offset_for_token rs toks idx))%Z.
 Proof.
   intros Hlb. unfold relocate_at. rewrite Hlb. change (0 <? 0) with false. cbv iota.
+  pose proof (ws_back_adjust_bounds rs p) as Hadj.
+  destruct (nonbreaking_ws_len rs p) as [wl bf]. cbn [fst] in *.
+  set (cws := if bf then 0 else col_for_token_end_post_fmt rs toks idx).
+  pose proof (clamp_bounds col cws (cws + wl) ltac:(lia)) as Hc.
+  specialize (Hadj (Z.of_N (cws + wl) - Z.of_N (clamp col cws (cws + wl)))%Z ltac:(lia)). lia.
+Qed.
+
+Lemma whitespace_same_line_bounds_formatted rs toks idx p col nla :
+  N.min nla (f_nl (snd p)) = 0 -> f_ignored (snd p) = false ->
+  (Z.of_N (offset_for_token rs toks idx) - Z.of_N (fst (nonbreaking_ws_len rs p))
+   <= relocate_at rs toks idx p (PWhitespace col nla)
+   <= Z.of_N (offset_for_token rs toks idx))%Z.
+Proof.
+  intros Hlb Hi. unfold relocate_at, ws_back_adjust. rewrite Hlb, Hi. change (0 <? 0) with false. cbv iota.
   destruct (nonbreaking_ws_len rs p) as [wl bf]. cbn [fst].
   set (cws := if bf then 0 else col_for_token_end_post_fmt rs toks idx).
   pose proof (clamp_bounds col cws (cws + wl) ltac:(lia)). lia.
 Qed.
 
-(* the column is kept when it lies inside the new whitespace *)
+(* the column is kept when it lies inside the new whitespace (and, for verbatim whitespace, is a
+   character boundary of it) *)
 Lemma whitespace_same_line_column rs toks idx p col nla :
   N.min nla (f_nl (snd p)) = 0 ->
   let wl := fst (nonbreaking_ws_len rs p) in
   let cws := if snd (nonbreaking_ws_len rs p) then 0 else col_for_token_end_post_fmt rs toks idx in
   cws <= col <= cws + wl ->
+  (f_ignored (snd p) = true ->
+   is_char_boundary (t_ws (fst p)) (N.to_nat (blen (t_ws (fst p)) - (cws + wl - col))) = true) ->
   relocate_at rs toks idx p (PWhitespace col nla) =
   (Z.of_N (offset_for_token rs toks idx) - Z.of_N wl + (Z.of_N col - Z.of_N cws))%Z.
 Proof.
   intros Hlb. unfold relocate_at. rewrite Hlb. change (0 <? 0) with false. cbv iota.
-  destruct (nonbreaking_ws_len rs p) as [wl bf]. cbn [fst snd]. intros Hc.
-  rewrite clamp_id by exact Hc. lia.
+  pose proof (nonbreaking_le_ws_ignored rs p) as Hle.
+  destruct (nonbreaking_ws_len rs p) as [wl bf]. cbn [fst snd] in *. intros Hc Hb.
+  rewrite clamp_id by exact Hc. unfold ws_back_adjust. destruct (f_ignored (snd p)); [|lia].
+  specialize (Hle eq_refl). specialize (Hb eq_refl).
+  set (cws := if bf then 0 else col_for_token_end_post_fmt rs toks idx) in *.
+  replace (Z.to_nat (Z.of_N (blen (t_ws (fst p))) - (Z.of_N (cws + wl) - Z.of_N col)))
+    with (N.to_nat (blen (t_ws (fst p)) - (cws + wl - col))) by lia.
+  rewrite floor_char_boundary_id by exact Hb. lia.
 Qed.
 
 (* ------------------------------------------------------------------ *)
@@ -552,12 +724,15 @@ Proof.
   intros Hn. rewrite (relocate_in_range _ _ _ _ _ Hn). eexists; split; [reflexivity|].
   pose proof (offset_for_token_le rs toks false idx p Hn) as Hle.
   destruct pos as [off|rc nla|col nla].
-  - unfold relocate_at. pose proof (u32_le (blen (t_content (fst p)))). lia.
+  - unfold relocate_at.
+    destruct (floor_char_boundary_spec (t_content (fst p)) (N.to_nat (N.min off (blen (t_content (fst p))))))
+      as [H1 _].
+    unfold blen in *. lia.
   - pose proof (multiline_no_underflow rs toks idx p rc nla). lia.
   - pose proof (whitespace_no_underflow rs toks idx p col nla Hn) as Hsubs.
     destruct (N.eq_dec (N.min nla (f_nl (snd p))) 0) as [Hz|Hnz].
     + pose proof (whitespace_same_line_bounds rs toks idx p col nla Hz) as Hb.
-      pose proof (offset_ge_ws_len rs toks idx p Hn). pose proof (nonbreaking_le_ws_len rs p). lia.
+      pose proof (offset_ge_ws_len rs toks idx p Hn). lia.
     + assert (Hpos : 0 < N.min nla (f_nl (snd p))) by lia.
       pose proof (proj2 (whitespace_back_iff rs toks idx p col nla Hpos) (ws_back_ok_all rs p nla)) as Hup.
       split; [|lia].
@@ -581,11 +756,13 @@ Theorem relocate_within_token rs toks idx pos p :
 Proof.
   intros Hn. rewrite (relocate_in_range _ _ _ _ _ Hn). eexists; split; [reflexivity|].
   destruct pos as [off|rc nla|col nla].
-  - unfold relocate_at. pose proof (u32_le (blen (t_content (fst p)))). lia.
+  - unfold relocate_at.
+    destruct (floor_char_boundary_spec (t_content (fst p)) (N.to_nat (N.min off (blen (t_content (fst p))))))
+      as [H1 _].
+    unfold blen in *. lia.
   - apply multiline_no_underflow.
   - destruct (N.eq_dec (N.min nla (f_nl (snd p))) 0) as [Hz|Hnz].
-    + pose proof (whitespace_same_line_bounds rs toks idx p col nla Hz) as Hb.
-      pose proof (nonbreaking_le_ws_len rs p). lia.
+    + pose proof (whitespace_same_line_bounds rs toks idx p col nla Hz) as Hb. lia.
     + assert (Hpos : 0 < N.min nla (f_nl (snd p))) by lia.
       pose proof (proj2 (whitespace_back_iff rs toks idx p col nla Hpos) (ws_back_ok_all rs p nla)) as Hup.
       split; [|exact Hup]. unfold relocate_at. apply N.ltb_lt in Hpos. rewrite Hpos. lia.
@@ -626,10 +803,13 @@ Proof. cbv zeta. repeat split; reflexivity. Qed.
 Theorem relocate_past_end rs toks idx pos p :
   (length toks <= idx)%nat -> last_opt toks = Some p ->
   relocate rs toks idx pos =
-  Some (Z.of_N (total_len rs toks + u32 (blen (t_content (fst p))))).
+  Some (Z.of_N (total_len rs toks)
+        + Z.of_nat (floor_char_boundary (t_content (fst p))
+                      (N.to_nat (u32 (blen (t_content (fst p)))))))%Z.
 Proof.
   intros Hi Hl. rewrite (relocate_out_of_range _ _ _ _ _ Hi Hl). unfold relocate_at.
-  rewrite offset_for_token_past by exact Hi. rewrite N.min_id. f_equal. lia.
+  rewrite offset_for_token_past by exact Hi.
+  rewrite N.min_l by apply u32_le. reflexivity.
 Qed.
 
 (* in practice the last token is Eof, whose content is empty: the cursor goes to the end of the
@@ -640,7 +820,7 @@ Corollary relocate_past_end_eof rs toks idx pos p :
   relocate rs toks idx pos = Some (Z.of_N (blen (recon rs false toks))).
 Proof.
   intros Hi Hl Hc Hf. rewrite (relocate_past_end _ _ _ _ _ Hi Hl), Hc.
-  rewrite (total_len_recon _ _ _ Hf). change (u32 (blen [])) with 0. f_equal. lia.
+  rewrite (total_len_recon _ _ _ Hf). cbn. f_equal. lia.
 Qed.
 
 Corollary relocate_past_end_in_bounds rs toks idx pos p :
@@ -648,7 +828,7 @@ Corollary relocate_past_end_in_bounds rs toks idx pos p :
   exists z, relocate rs toks idx pos = Some z /\ (0 <= z <= Z.of_N (blen (recon rs false toks)))%Z.
 Proof.
   intros Hi Hl Hc. rewrite (relocate_past_end _ _ _ _ _ Hi Hl), Hc. eexists; split; [reflexivity|].
-  pose proof (total_len_le_recon rs toks false). change (u32 (blen [])) with 0. lia.
+  pose proof (total_len_le_recon rs toks false). cbn. lia.
 Qed.
 
 Example relocate_past_end_ex :
@@ -830,17 +1010,18 @@ Proof.
   rewrite map_rev, nsum_rev. lia.
 Qed.
 
-(* A cursor at byte k of a multi-line token whose content is unchanged comes back at byte k of
-   that token — provided neither quantity was truncated by `as u16`. *)
+(* A cursor at byte k (a character boundary) of a multi-line token whose content is unchanged
+   comes back at byte k of that token — provided neither quantity was truncated by `as u16`. *)
 Theorem multiline_same_offset rs toks idx p k :
   nth_error toks idx = Some p ->
   let after := skipn k (t_content (fst p)) in
   (k <= length (t_content (fst p)))%nat ->
+  is_char_boundary (t_content (fst p)) k = true ->
   first_line_len after < 65536 -> count_lf after < 65536 ->
   relocate rs toks idx (PMultiline (u16 (first_line_len after)) (u16 (count_lf after)))
   = Some (Z.of_N (offset_for_token rs toks idx + N.of_nat k)).
 Proof.
-  intros Hn after Hk H1 H2. rewrite (relocate_in_range _ _ _ _ _ Hn). unfold relocate_at.
+  intros Hn after Hk Hb H1 H2. rewrite (relocate_in_range _ _ _ _ _ Hn). unfold relocate_at.
   rewrite !u16_small by assumption.
   assert (Hofe : offset_from_end (t_content (fst p)) (first_line_len after) (count_lf after) = blen after).
   { rewrite <- (firstn_skipn k (t_content (fst p))) at 1. apply offset_from_end_exact. }
@@ -848,25 +1029,29 @@ Proof.
   pose proof (blen_firstn_skipn k (t_content (fst p))) as Hsum. fold after in Hsum.
   assert (Hfk : blen (firstn k (t_content (fst p))) = N.of_nat k)
     by (unfold blen; rewrite firstn_length_le by exact Hk; reflexivity).
-  f_equal. lia.
+  replace (Z.to_nat (Z.of_N (blen (t_content (fst p))) - Z.of_N (N.min (blen after) (blen (t_content (fst p))))))
+    with k by lia.
+  rewrite floor_char_boundary_id by exact Hb. f_equal. lia.
 Qed.
 
 (* the same, stated on what process_cursors computes for a raw multi-line token *)
 Theorem multiline_roundtrip rs raw ridx t tp toks idx p :
   is_multiline_raw (r_ty t) = true ->
   (0 <= tp <= Z.of_N (blen (r_content t)))%Z ->
+  is_char_boundary (r_content t) (Z.to_nat tp) = true ->
   nth_error toks idx = Some p -> t_content (fst p) = r_content t ->
   blen (r_content t) < 65536 ->
   relocate rs toks idx (tokpos_of raw ridx t tp)
   = Some (Z.of_N (offset_for_token rs toks idx) + tp)%Z.
 Proof.
-  intros Hm Htp Hn Hc Hsmall. unfold tokpos_of.
+  intros Hm Htp Hb Hn Hc Hsmall. unfold tokpos_of.
   assert (E : (0 <=? tp)%Z = true) by (apply Z.leb_le; lia). rewrite E, Hm, <- Hc.
   assert (Hk : (Z.to_nat tp <= length (t_content (fst p)))%nat) by (rewrite Hc; unfold blen in Htp; lia).
   pose proof (first_line_len_le (skipn (Z.to_nat tp) (t_content (fst p)))) as H1.
   pose proof (count_lf_le (skipn (Z.to_nat tp) (t_content (fst p)))) as H2.
   pose proof (blen_firstn_skipn (Z.to_nat tp) (t_content (fst p))) as H3. rewrite Hc in H3 at 3.
-  rewrite (multiline_same_offset rs toks idx p (Z.to_nat tp) Hn Hk) by lia.
+  rewrite <- Hc in Hb.
+  rewrite (multiline_same_offset rs toks idx p (Z.to_nat tp) Hn Hk Hb) by lia.
   f_equal. lia.
 Qed.
 
@@ -875,6 +1060,7 @@ Example multiline_roundtrip_ex :
   let t : rtok := ([32], [39;39;39;10;97;10;39;39;39], RTT_TextLiteral TK_MultiLine) in
   let p := (mkToken [] [39;39;39;10;97;10;39;39;39] (TT_TextLiteral TK_MultiLine), mkFmt false 0 0 0 1) in
   is_multiline_raw (r_ty t) = true /\ nth_error [p] 0 = Some p /\
+  is_char_boundary (r_content t) (Z.to_nat 5) = true /\
   tokpos_of [t] 0 t 5 = PMultiline 0 1 /\ relocate rs [p] 0 (tokpos_of [t] 0 t 5) = Some 6%Z.
 Proof. repeat split; reflexivity. Qed.
 
@@ -902,7 +1088,11 @@ Proof.
   unfold relocate, relocate_target. cbn [nth_error]. unfold relocate_at.
   cbn [fst t_content offset_for_token]. change (u16 65536) with 0. change (u16 0) with 0.
   unfold offset_from_end. change (N.to_nat 0) with 0%nat. cbn [firstn map nsum].
-  unfold blen. rewrite repeat_length, Hn. reflexivity.
+  unfold blen. rewrite repeat_length, Hn.
+  pose proof (is_char_boundary_len (repeat 97 n)) as Hb. rewrite repeat_length in Hb.
+  change (N.min (0 + 0) 65536) with 0. change (Z.of_N 0) with 0%Z. rewrite Z.sub_0_r.
+  replace (Z.to_nat (Z.of_N 65536)) with n by (rewrite <- Hn; lia).
+  rewrite floor_char_boundary_id by exact Hb. replace (Z.of_nat n) with 65536%Z by lia. reflexivity.
 Qed.
 
 (* ------------------------------------------------------------------ *)
@@ -1037,11 +1227,12 @@ Theorem track_cursor_content_same_offset rs pre t post final p off :
   is_multiline_raw (r_ty t) = false ->
   0 < off <= blen (r_content t) -> blen (r_content t) < 4294967296 ->
   nth_error final (length pre) = Some p ->
-  off <= blen (t_content (fst p)) -> blen (t_content (fst p)) < 4294967296 ->
+  off <= blen (t_content (fst p)) ->
+  is_char_boundary (t_content (fst p)) (N.to_nat off) = true ->
   track_cursor rs (pre ++ t :: post) final (raw_len pre + blen (r_ws t) + off)
   = Some (Z.of_N (offset_for_token rs final (length pre) + off)).
 Proof.
-  intros Hm Hoff Hs Hn Ho Hs'. unfold track_cursor.
+  intros Hm Hoff Hs Hn Ho Hb. unfold track_cursor.
   rewrite process_cursor_content by assumption.
   apply (relocate_content_same_offset _ _ _ p); assumption.
 Qed.
@@ -1261,6 +1452,7 @@ Example track_cursor_content_same_offset_ex :
   let final : list ftoken := [(mkToken [] [97] TT_Identifier, mkFmt false 0 0 0 0); p] in
   is_multiline_raw (r_ty t) = false /\ 0 < 2 <= blen (r_content t) /\
   nth_error final (length pre) = Some p /\ 2 <= blen (t_content (fst p)) /\
+  is_char_boundary (t_content (fst p)) (N.to_nat 2) = true /\
   track_cursor rs (pre ++ t :: []) final (raw_len pre + blen (r_ws t) + 2) = Some 4%Z.
 Proof. cbv zeta. repeat split; try reflexivity; vm_compute; congruence. Qed.
 
@@ -1282,6 +1474,7 @@ Example multiline_same_offset_ex :
   let toks := [(mkToken [] [97] TT_Identifier, mkFmt false 0 0 0 0); p] in
   let after := skipn 3 (t_content (fst p)) in
   nth_error toks 1 = Some p /\ (3 <= length (t_content (fst p)))%nat /\
+  is_char_boundary (t_content (fst p)) 3 = true /\
   first_line_len after < 65536 /\ count_lf after < 65536 /\
   relocate rs toks 1 (PMultiline (u16 (first_line_len after)) (u16 (count_lf after))) = Some 7%Z /\
   offset_for_token rs toks 1 = 4.
@@ -1308,6 +1501,390 @@ Example whitespace_ignored_lf_config_crlf_text_real :
   map (track_cursor_u32 rs raw final) [13;14;15;16;17;18;19;20] = [13;15;15;15;17;17;19;19].
 Proof. split; reflexivity. Qed.
 
+(* ------------------------------------------------------------------ *)
+(* the relocated cursor is a character boundary of the OUTPUT *)
+
+(* l does not begin with a UTF-8 continuation byte (true for every valid UTF-8 string) *)
+Definition starts_ok (l : list N) : Prop := forall b, nth_error l 0 = Some b -> is_cont b = false.
+(* l contains no continuation byte at all (true for ASCII strings) *)
+Definition no_cont (l : list N) : Prop := Forall (fun b => is_cont b = false) l.
+(* k <= |l| and the byte at k, if any, starts a character *)
+Definition boundary_at (l : list N) (k : nat) : Prop :=
+  (k <= length l)%nat /\ forall b, nth_error l k = Some b -> is_cont b = false.
+
+Lemma boundary_at_is (l : list N) k : boundary_at l k -> is_char_boundary l k = true.
+Proof. intros [H1 H2]. apply is_char_boundary_of_byte; assumption. Qed.
+
+Lemma is_char_boundary_byte (l : list N) k b :
+  (0 < k)%nat -> is_char_boundary l k = true -> nth_error l k = Some b -> is_cont b = false.
+Proof.
+  intros Hk Hb Hn. unfold is_char_boundary in Hb. destruct k as [|k']; [lia|].
+  rewrite Hn in Hb. apply negb_true_iff in Hb. exact Hb.
+Qed.
+
+Lemma boundary_at_skip (A B : list N) k : boundary_at B k -> boundary_at (A ++ B) (length A + k).
+Proof.
+  intros [H1 H2]. split; [rewrite app_length; lia|]. intros b. rewrite nth_error_skip. apply H2.
+Qed.
+
+Lemma boundary_at_app_in (A B : list N) k :
+  (k < length A)%nat -> (forall b, nth_error A k = Some b -> is_cont b = false) ->
+  boundary_at (A ++ B) k.
+Proof.
+  intros Hk H. split; [rewrite app_length; lia|]. intros b. rewrite nth_error_app1 by exact Hk. apply H.
+Qed.
+
+Lemma boundary_at_app_end (A B : list N) : starts_ok B -> boundary_at (A ++ B) (length A).
+Proof.
+  intros H. replace (length A) with (length A + 0)%nat by lia. apply boundary_at_skip.
+  split; [lia|exact H].
+Qed.
+
+Lemma starts_ok_nil : starts_ok []. Proof. intros b H. discriminate. Qed.
+
+Lemma starts_ok_app (A B : list N) : starts_ok A -> starts_ok B -> starts_ok (A ++ B).
+Proof. destruct A as [|a A']; intros HA HB; [exact HB|exact HA]. Qed.
+
+Lemma starts_ok_repeat_app n (s : list N) : starts_ok s -> starts_ok (repeat_app n s).
+Proof. intros H. induction n as [|n IH]; cbn [repeat_app]; [apply starts_ok_nil|apply starts_ok_app; assumption]. Qed.
+
+Lemma no_cont_starts_ok (l : list N) : no_cont l -> starts_ok l.
+Proof. intros H b Hb. destruct l as [|a t]; [discriminate|]. injection Hb as <-. inversion H; assumption. Qed.
+
+Lemma no_cont_app (A B : list N) : no_cont A -> no_cont B -> no_cont (A ++ B).
+Proof. intros HA HB. apply Forall_app. split; assumption. Qed.
+
+Lemma no_cont_repeat_app n (s : list N) : no_cont s -> no_cont (repeat_app n s).
+Proof. apply Forall_repeat_app. Qed.
+
+Lemma no_cont_nth (l : list N) k b : no_cont l -> nth_error l k = Some b -> is_cont b = false.
+Proof. intros H Hn. unfold no_cont in H. rewrite Forall_forall in H. apply H. exact (nth_error_In _ _ Hn). Qed.
+
+(* what the pieces of the output must satisfy; every valid UTF-8 string satisfies starts_ok *)
+Definition rs_starts_ok (rs : rsettings) : Prop :=
+  starts_ok (rs_newline rs) /\ starts_ok (rs_indent rs) /\ starts_ok (rs_cont rs).
+Definition tok_starts_ok (p : ftoken) : Prop :=
+  starts_ok (t_ws (fst p)) /\ starts_ok (t_content (fst p)).
+Definition pieces_ok (rs : rsettings) (toks : list ftoken) : Prop :=
+  rs_starts_ok rs /\ Forall tok_starts_ok toks.
+(* the newline / indentation / continuation strings are ASCII (rs_of_config always is) *)
+Definition rs_no_cont (rs : rsettings) : Prop :=
+  no_cont (rs_newline rs) /\ no_cont (rs_indent rs) /\ no_cont (rs_cont rs).
+
+Lemma rs_no_cont_starts_ok rs : rs_no_cont rs -> rs_starts_ok rs.
+Proof. intros (H1 & H2 & H3). repeat split; apply no_cont_starts_ok; assumption. Qed.
+
+Lemma rs_of_config_no_cont crlf tabs tw ci : rs_no_cont (rs_of_config crlf tabs tw ci).
+Proof.
+  unfold rs_of_config, rs_new, rs_no_cont.
+  destruct tabs; cbn [rs_newline rs_indent rs_cont]; repeat split;
+    try (destruct crlf; repeat constructor);
+    unfold nrepeat; apply no_cont_repeat_app; repeat constructor.
+Qed.
+
+Lemma starts_ok_emit_ws rs mb p : rs_starts_ok rs -> starts_ok (t_ws (fst p)) -> starts_ok (emit_ws rs mb p).
+Proof.
+  intros (H1 & H2 & H3) Hw. destruct p as [tok f]. cbn [fst] in Hw. unfold emit_ws.
+  assert (H32 : starts_ok [32]) by (intros b Hb; injection Hb as <-; reflexivity).
+  destruct (f_ignored f).
+  - apply starts_ok_app; [|exact Hw]. destruct (_ && _ && _); [exact H1|apply starts_ok_nil].
+  - unfold nrepeat. repeat apply starts_ok_app; apply starts_ok_repeat_app; assumption.
+Qed.
+
+Lemma no_cont_emit_ws rs mb p :
+  rs_no_cont rs -> (f_ignored (snd p) = true -> no_cont (t_ws (fst p))) -> no_cont (emit_ws rs mb p).
+Proof.
+  intros (H1 & H2 & H3) Hw. destruct p as [tok f]. cbn [fst snd] in Hw. unfold emit_ws.
+  assert (H32 : no_cont [32]) by (repeat constructor).
+  destruct (f_ignored f).
+  - apply no_cont_app; [|apply Hw; reflexivity]. destruct (_ && _ && _); [exact H1|constructor].
+  - unfold nrepeat. repeat apply no_cont_app; apply no_cont_repeat_app; assumption.
+Qed.
+
+Lemma recon_starts_ok rs l : rs_starts_ok rs -> Forall tok_starts_ok l -> forall mb, starts_ok (recon rs mb l).
+Proof.
+  intros Hrs Hl. induction Hl as [|p r [Hw Hc] Hr IH]; intros mb; [apply starts_ok_nil|].
+  cbn [recon]. apply starts_ok_app; [apply starts_ok_emit_ws; assumption|].
+  apply starts_ok_app; [exact Hc|apply IH].
+Qed.
+
+Lemma Forall_skipn' {A} (P : A -> Prop) n (l : list A) : Forall P l -> Forall P (skipn n l).
+Proof. intros H. rewrite <- (firstn_skipn n l) in H. apply Forall_app in H. apply H. Qed.
+
+Lemma net_free_firstn l : forall mb n, net_free mb l = true -> net_free mb (firstn n l) = true.
+Proof.
+  induction l as [|p r IH]; intros mb n H; [destruct n; reflexivity|].
+  destruct n as [|n]; [reflexivity|]. cbn [firstn net_free] in *.
+  apply andb_true_iff in H. destruct H as [H1 H2]. rewrite H1. cbn [andb]. apply IH, H2.
+Qed.
+
+Lemma net_free_at toks : forall mb idx p,
+  nth_error toks idx = Some p -> net_free mb (firstn (S idx) toks) = true ->
+  net_fires (mb_after mb (firstn idx toks)) p = false.
+Proof.
+  induction toks as [|q r IH]; intros mb idx p Hn Hf; [destruct idx; discriminate|].
+  cbn [firstn net_free] in Hf. apply andb_true_iff in Hf. destruct Hf as [Hq Hr].
+  destruct idx as [|j]; cbn [nth_error] in Hn.
+  - injection Hn as <-. cbn [firstn]. apply negb_true_iff in Hq. exact Hq.
+  - cbn [firstn]. rewrite mb_after_cons. apply (IH _ j p Hn Hr).
+Qed.
+
+(* l has no continuation byte directly after an LF.  True for every valid UTF-8 string (a
+   continuation byte only follows a byte >= 0x80): cont_preceded_after_lf_ok. *)
+Definition after_lf_ok (l : list N) : Prop :=
+  forall i b, nth_error l i = Some 10 -> nth_error l (S i) = Some b -> is_cont b = false.
+
+Definition cont_preceded (l : list N) : Prop :=
+  forall i b, nth_error l (S i) = Some b -> is_cont b = true ->
+              exists a, nth_error l i = Some a /\ 128 <= a.
+
+Lemma cont_preceded_after_lf_ok l : cont_preceded l -> after_lf_ok l.
+Proof.
+  intros H i b H10 Hb. destruct (is_cont b) eqn:E; [|reflexivity].
+  destruct (H i b Hb E) as (a & Ha & Hge). rewrite H10 in Ha. injection Ha as <-. lia.
+Qed.
+
+Lemma no_cont_after_lf_ok l : no_cont l -> after_lf_ok l.
+Proof. intros H i b _ Hb. exact (no_cont_nth _ _ _ H Hb). Qed.
+
+Lemma emit_ws_ignored_no_net rs mb p :
+  f_ignored (snd p) = true -> net_fires mb p = false -> emit_ws rs mb p = t_ws (fst p).
+Proof.
+  destruct p as [tok f]. cbn [snd fst]. intros Hi Hnf. unfold emit_ws, net_fires in *.
+  rewrite Hi in *. rewrite Hnf. reflexivity.
+Qed.
+
+(* where a whitespace cursor in front of an IGNORED token lands: at offset i of the token's
+   verbatim whitespace, where the byte at i (if i > 0) starts a character *)
+Lemma whitespace_ignored_landing rs toks idx p col nla :
+  f_ignored (snd p) = true -> after_lf_ok (t_ws (fst p)) ->
+  exists i, relocate_at rs toks idx p (PWhitespace col nla)
+            = (Z.of_N (offset_for_token rs toks idx) - Z.of_N (blen (t_ws (fst p))) + Z.of_nat i)%Z
+            /\ (i <= length (t_ws (fst p)))%nat
+            /\ forall b, (0 < i)%nat -> nth_error (t_ws (fst p)) i = Some b -> is_cont b = false.
+Proof.
+  intros Hi Hlf. unfold relocate_at.
+  assert (Hws : ws_len rs p = blen (t_ws (fst p))).
+  { destruct p as [tok f]. cbn [snd fst] in *. unfold ws_len. rewrite Hi. reflexivity. }
+  destruct (0 <? N.min nla (f_nl (snd p))).
+  - unfold kept_len. rewrite Hi, Hws.
+    set (k := N.to_nat (f_nl (snd p) - lines_back (f_nl (snd p)) nla)).
+    pose proof (kept_len_ignored_le (t_ws (fst p)) k) as Hle.
+    exists (N.to_nat (kept_len_ignored (t_ws (fst p)) k)). split; [lia|]. split; [unfold blen in Hle; lia|].
+    intros b Hpos Hb. destruct (kept_len_ignored_cases (t_ws (fst p)) k) as [H0|(pos & Hk & H10)].
+    + rewrite H0 in Hpos. cbn in Hpos. lia.
+    + rewrite Hk in Hb. replace (N.to_nat (pos + 1)) with (S (N.to_nat pos)) in Hb by lia.
+      exact (Hlf _ _ H10 Hb).
+  - pose proof (nonbreaking_le_ws_ignored rs p Hi) as Hle.
+    destruct (nonbreaking_ws_len rs p) as [wl bf]. cbn [fst] in Hle.
+    set (cws := if bf then 0 else col_for_token_end_post_fmt rs toks idx).
+    pose proof (clamp_bounds col cws (cws + wl) ltac:(lia)) as Hc.
+    unfold ws_back_adjust. rewrite Hi.
+    set (i0 := (Z.of_N (blen (t_ws (fst p))) - (Z.of_N (cws + wl) - Z.of_N (clamp col cws (cws + wl))))%Z).
+    destruct (floor_char_boundary_spec (t_ws (fst p)) (Z.to_nat i0)) as [H1 H2].
+    exists (floor_char_boundary (t_ws (fst p)) (Z.to_nat i0)). split; [lia|].
+    split; [unfold i0, blen in *; lia|].
+    intros b Hpos Hb. exact (is_char_boundary_byte (t_ws (fst p)) _ b Hpos H2 Hb).
+Qed.
+
+(* NEW: a relocated cursor is a character boundary of the output.
+   Content / MultilineContent positions: always (given that no piece of the output starts with a
+   continuation byte, i.e. all pieces are valid UTF-8, and that no safety-net newline shifts the
+   offsets — class F10).
+   Whitespace positions: for formatted tokens when the settings' strings are ASCII; for ignored
+   tokens (verbatim whitespace, possibly with U+3000) when no continuation byte directly follows
+   an LF in that whitespace (after_lf_ok — implied by valid UTF-8) — since commit c3b0c3f. *)
+Theorem relocate_on_char_boundary rs toks idx pos p z :
+  nth_error toks idx = Some p ->
+  net_free false (firstn (S idx) toks) = true ->
+  pieces_ok rs toks ->
+  match pos with
+  | PWhitespace _ _ => rs_no_cont rs /\ (f_ignored (snd p) = true -> after_lf_ok (t_ws (fst p)))
+  | _ => True
+  end ->
+  relocate rs toks idx pos = Some z ->
+  is_char_boundary (recon rs false toks) (Z.to_nat z) = true.
+Proof.
+  intros Hn Hf [Hrs Hall] Hpos Hz.
+  destruct (offset_for_token_correct rs toks idx p Hn Hf) as (pre & post & Hrec & Hlen & Hpre & Hpost).
+  assert (Hp : tok_starts_ok p).
+  { rewrite Forall_forall in Hall. apply Hall. exact (nth_error_In _ _ Hn). }
+  destruct Hp as [Hpw Hpc].
+  assert (Hpost_ok : starts_ok post).
+  { rewrite Hpost. apply recon_starts_ok; [exact Hrs|apply Forall_skipn', Hall]. }
+  apply boundary_at_is. rewrite Hrec.
+  destruct pos as [off|rc nla|col nla].
+  1,2: (match type of Hz with relocate _ _ _ ?q = _ =>
+      destruct (relocate_char_boundary rs toks idx p q Hn I) as (k & Hk & Hle & Hb) end;
+    rewrite Hk in Hz; injection Hz as <-;
+    replace (Z.to_nat (Z.of_N (offset_for_token rs toks idx) + Z.of_nat k)) with (length pre + k)%nat
+      by (unfold blen in Hlen; lia);
+    apply boundary_at_skip;
+    destruct (Nat.eq_dec k (length (t_content (fst p)))) as [->|Hne];
+    [apply boundary_at_app_end, Hpost_ok|];
+    apply boundary_at_app_in; [lia|]; intros b Hb';
+    destruct k as [|k']; [apply Hpc, Hb'|apply (is_char_boundary_byte (t_content (fst p)) (S k') b); [lia|exact Hb|exact Hb']]).
+  (* whitespace *)
+  destruct Hpos as [Hrsn Hign].
+  pose proof (net_free_at toks false idx p Hn Hf) as Hnf.
+  set (E := emit_ws rs (mb_after false (firstn idx toks)) p) in *.
+  assert (HElen : blen E = ws_len rs p) by (apply emit_ws_len_no_net; exact Hnf).
+  rewrite Hpre, <- app_assoc.
+  pose proof (offset_ge_ws_len rs toks idx p Hn) as Hge.
+  set (pre0 := recon rs false (firstn idx toks)) in *.
+  assert (Hpre0 : blen pre0 + blen E = offset_for_token rs toks idx)
+    by (rewrite <- Hlen, Hpre, blen_app; reflexivity).
+  rewrite (relocate_in_range _ _ _ _ _ Hn) in Hz.
+  assert (Hzeq : relocate_at rs toks idx p (PWhitespace col nla) = z) by congruence.
+  clear Hz. subst z.
+  destruct (f_ignored (snd p)) eqn:Hi.
+  - (* verbatim whitespace *)
+    destruct (whitespace_ignored_landing rs toks idx p col nla Hi (Hign eq_refl)) as (i & Hrel & Hile & Hbyte).
+    assert (HE : E = t_ws (fst p)) by (apply emit_ws_ignored_no_net; assumption).
+    assert (Hws : ws_len rs p = blen (t_ws (fst p))).
+    { destruct p as [tok f]. cbn [snd fst] in *. unfold ws_len. rewrite Hi. reflexivity. }
+    rewrite Hrel.
+    replace (Z.to_nat (Z.of_N (offset_for_token rs toks idx) - Z.of_N (blen (t_ws (fst p))) + Z.of_nat i))
+      with (length pre0 + i)%nat by (unfold blen in *; lia).
+    apply boundary_at_skip. rewrite HE.
+    destruct (Nat.eq_dec i (length (t_ws (fst p)))) as [->|Hne].
+    + apply boundary_at_app_end. apply starts_ok_app; assumption.
+    + apply boundary_at_app_in; [lia|]. intros b Hb. destruct i as [|i']; [apply Hpw, Hb|].
+      apply (Hbyte b); [lia|exact Hb].
+  - (* emitted (ASCII) whitespace *)
+    destruct (relocate_within_token rs toks idx (PWhitespace col nla) p Hn) as (z' & Hz' & Hlo & Hhi).
+    rewrite (relocate_in_range _ _ _ _ _ Hn) in Hz'.
+    assert (Hzeq : relocate_at rs toks idx p (PWhitespace col nla) = z') by congruence.
+    clear Hz'. subst z'.
+    set (z := relocate_at rs toks idx p (PWhitespace col nla)) in *.
+    assert (HE : no_cont E).
+    { apply no_cont_emit_ws; [exact Hrsn|]. intros H. rewrite H in Hi. discriminate. }
+    replace (Z.to_nat z) with (length pre0 + Z.to_nat (z - Z.of_N (blen pre0)))%nat by (unfold blen in *; lia).
+    apply boundary_at_skip.
+    set (j := Z.to_nat (z - Z.of_N (blen pre0))).
+    assert (Hj : (j <= length E)%nat) by (unfold j, blen in *; lia).
+    destruct (Nat.eq_dec j (length E)) as [->|Hne].
+    + apply boundary_at_app_end. apply starts_ok_app; assumption.
+    + apply boundary_at_app_in; [lia|]. intros b Hb. exact (no_cont_nth _ _ _ HE Hb).
+Qed.
+
+Theorem relocate_on_char_boundary_content rs toks idx pos p z :
+  nth_error toks idx = Some p ->
+  net_free false (firstn (S idx) toks) = true ->
+  pieces_ok rs toks ->
+  match pos with PWhitespace _ _ => False | _ => True end ->
+  relocate rs toks idx pos = Some z ->
+  is_char_boundary (recon rs false toks) (Z.to_nat z) = true.
+Proof.
+  intros Hn Hf Hp Hpos Hz. apply (relocate_on_char_boundary rs toks idx pos p z Hn Hf Hp); [|exact Hz].
+  destruct pos; [exact I|exact I|contradiction].
+Qed.
+
+(* end to end, for every cursor (found, in whitespace, or past the end) *)
+Theorem track_cursor_on_char_boundary rs raw final c z :
+  final <> [] ->
+  (forall p, last_opt final = Some p -> t_content (fst p) = []) ->
+  net_free false final = true ->
+  pieces_ok rs final -> rs_no_cont rs ->
+  Forall (fun p => f_ignored (snd p) = true -> after_lf_ok (t_ws (fst p))) final ->
+  track_cursor rs raw final c = Some z ->
+  is_char_boundary (recon rs false final) (Z.to_nat z) = true.
+Proof.
+  intros Hne Hlast Hf Hp Hrs Hws. unfold track_cursor.
+  destruct (process_cursor raw c) as [idx pos]. intros Hz.
+  destruct (nth_error final idx) as [p|] eqn:En.
+  - apply (relocate_on_char_boundary rs final idx pos p z En (net_free_firstn _ _ _ Hf) Hp); [|exact Hz].
+    destruct pos; try exact I. split; [exact Hrs|].
+    rewrite Forall_forall in Hws. apply Hws. exact (nth_error_In _ _ En).
+  - apply nth_error_None in En. destruct (last_opt final) as [p|] eqn:El.
+    + rewrite (relocate_past_end_eof rs final idx pos p En El (Hlast p eq_refl) Hf) in Hz.
+      injection Hz as <-. unfold blen.
+      replace (Z.to_nat (Z.of_N (N.of_nat (length (recon rs false final))))) with (length (recon rs false final)) by lia.
+      apply is_char_boundary_len.
+    + apply last_opt_none in El. contradiction.
+Qed.
+
+(* the same for Content / MultilineContent cursors only, with no assumption on the whitespace *)
+Theorem track_cursor_on_char_boundary_content rs raw final c idx pos z :
+  net_free false final = true -> pieces_ok rs final ->
+  process_cursor raw c = (idx, pos) -> (idx < length final)%nat ->
+  match pos with PWhitespace _ _ => False | _ => True end ->
+  track_cursor rs raw final c = Some z ->
+  is_char_boundary (recon rs false final) (Z.to_nat z) = true.
+Proof.
+  intros Hf Hp Hpc Hidx Hpos. unfold track_cursor. rewrite Hpc. intros Hz.
+  destruct (nth_error final idx) as [p|] eqn:En; [|apply nth_error_None in En; lia].
+  exact (relocate_on_char_boundary_content rs final idx pos p z En (net_free_firstn _ _ _ Hf) Hp Hpos Hz).
+Qed.
+
+(* F9 regression: `a; //é` with --cursor 7 (the end of the comment).  The comment becomes `// é`
+   (a space is inserted); byte arithmetic on the old text gave 7 = the middle of `é`; the
+   repaired code reports 6, a character boundary (confirmed with vh trace). *)
+Definition f9_rs : rsettings := rs_of_config false false 2 2.
+Definition f9_raw : list rtok :=
+  [([], [97], RTT_Identifier); ([], [59], RTT_Op OK_Semicolon);
+   ([32], [47;47;195;169], RTT_Comment CoK_InlineLine); ([], [], RTT_Eof)].
+Definition f9_final : list ftoken :=
+  [(mkToken [] [97] TT_Identifier, mkFmt false 0 0 0 0);
+   (mkToken [] [59] (TT_Op OK_Semicolon), mkFmt false 0 0 0 0);
+   (mkToken [] [47;47;32;195;169] (TT_Comment CoK_InlineLine), mkFmt false 0 0 0 1);
+   (mkToken [] [] TT_Eof, mkFmt false 1 0 0 0)].
+
+Example cursor_mid_char_fixed_example :
+  recon f9_rs false f9_final = [97;59;32;47;47;32;195;169;10] /\
+  track_cursor f9_rs f9_raw f9_final 7 = Some 6%Z /\
+  is_char_boundary (recon f9_rs false f9_final) 6 = true /\
+  is_char_boundary (recon f9_rs false f9_final) 7 = false /\      (* where it used to land *)
+  (* the hypotheses of track_cursor_on_char_boundary hold for this instance *)
+  net_free false f9_final = true /\ pieces_ok f9_rs f9_final /\ rs_no_cont f9_rs /\
+  map (track_cursor_u32 f9_rs f9_raw f9_final) [0;1;2;3;4;5;6;7;8] = [0;1;2;3;4;5;6;6;9].
+Proof.
+  repeat split; try reflexivity; try apply rs_of_config_no_cont.
+  - apply rs_no_cont_starts_ok, rs_of_config_no_cont.
+  - apply rs_no_cont_starts_ok, rs_of_config_no_cont.
+  - apply rs_no_cont_starts_ok, rs_of_config_no_cont.
+  - repeat constructor; intros b Hb; try discriminate; injection Hb as <-; reflexivity.
+Qed.
+
+(* Regression (third site of the F9 class, repaired by commit c3b0c3f): a whitespace cursor in
+   VERBATIM non-ASCII whitespace.  Input `a  ;<U+3000><U+3000>// pasfmt off` LF `b;` LF, cursor
+   7 = between the two U+3000.  `a  ;` becomes `a;`, the ignored comment keeps its 6 bytes of
+   whitespace; the column arithmetic of the same-line branch (col 7, clamped to [2, 8]) gave output
+   byte 7 = the last byte of the second U+3000; the repaired code steps back to 5, the boundary
+   between the two blanks (vh trace on a harness built from c3b0c3f: cursors 4,7,10 -> 2,5,8). *)
+Definition u3000_raw : list rtok :=
+  [([], [97], RTT_Identifier); ([32;32], [59], RTT_Op OK_Semicolon);
+   ([227;128;128;227;128;128], [47;47;32;112;97;115;102;109;116;32;111;102;102], RTT_Comment CoK_InlineLine);
+   ([10], [98], RTT_Identifier); ([], [59], RTT_Op OK_Semicolon); ([10], [], RTT_Eof)].
+Definition u3000_final : list ftoken :=
+  [(mkToken [] [97] TT_Identifier, mkFmt false 0 0 0 0);
+   (mkToken [32;32] [59] (TT_Op OK_Semicolon), mkFmt false 0 0 0 0);
+   (mkToken [227;128;128;227;128;128] [47;47;32;112;97;115;102;109;116;32;111;102;102]
+      (TT_Comment CoK_InlineLine), mkFmt true 0 0 0 1);
+   (mkToken [10] [98] TT_Identifier, mkFmt true 1 0 0 0);
+   (mkToken [] [59] (TT_Op OK_Semicolon), mkFmt true 0 0 0 0);
+   (mkToken [10] [] TT_Eof, mkFmt true 1 0 0 0)].
+
+Theorem whitespace_verbatim_mid_char_fixed_example :
+  exists rs raw final c idx col nla z,
+    input_boundary (raw_text raw) c /\                 (* the cursor is on a character boundary *)
+    process_cursor raw c = (idx, PWhitespace col nla) /\
+    net_free false final = true /\ pieces_ok rs final /\ rs_no_cont rs /\
+    Forall (fun p => f_ignored (snd p) = true -> after_lf_ok (t_ws (fst p))) final /\
+    track_cursor rs raw final c = Some z /\ z = 5%Z /\
+    is_char_boundary (recon rs false final) (Z.to_nat z) = true /\
+    is_char_boundary (recon rs false final) 7 = false /\           (* where it used to land *)
+    map (track_cursor_u32 rs raw final) [4;7;10] = [2;5;8].
+Proof.
+  exists f9_rs, u3000_raw, u3000_final, 7, 2%nat, 7, 0, 5%Z.
+  repeat split; try reflexivity; try apply rs_of_config_no_cont;
+    try (apply rs_no_cont_starts_ok, rs_of_config_no_cont).
+  - intros b Hb. vm_compute in Hb. injection Hb as <-. reflexivity.
+  - repeat constructor; intros b Hb; try discriminate; injection Hb as <-; reflexivity.
+  - repeat constructor; intros _ i b H10 Hb; cbn [fst t_ws] in *;
+      repeat (destruct i as [|i]; cbn [nth_error] in *; try discriminate).
+Qed.
+
 Print Assumptions offset_for_token_correct.
 Print Assumptions relocate_in_bounds.
 Print Assumptions relocate_content_same_offset.
@@ -1327,3 +1904,10 @@ Print Assumptions process_cursor_not_boundary_panics_refuted.
 Print Assumptions track_cursor_in_bounds.
 Print Assumptions track_cursor_past_end.
 Print Assumptions track_cursor_content_same_offset.
+Print Assumptions relocate_char_boundary.
+Print Assumptions relocate_on_char_boundary.
+Print Assumptions track_cursor_on_char_boundary.
+Print Assumptions track_cursor_on_char_boundary_content.
+Print Assumptions cursor_mid_char_fixed_example.
+Print Assumptions whitespace_verbatim_mid_char_fixed_example.
+Print Assumptions whitespace_ignored_landing.
